@@ -119,7 +119,12 @@ def _worker(args):
     try:
         mod = importlib.import_module(modname)
         acc = Acc()
-        mod.run_shard(shard, acc)
+        if '__regress__' in shard:
+            for name, case in shard['__regress__']:
+                for fp, detail in mod.replay(case):
+                    acc.finding(fp, case, detail)
+        else:
+            mod.run_shard(shard, acc)
         out = acc.dump()
         out['error'] = None
     except BaseException:
@@ -200,32 +205,31 @@ def run(pid, tier, seed):
     import shutil
     shutil.rmtree(os.path.join(OUT, 'replays', pid), ignore_errors=True)
 
-    # replay tier: every saved minimal input of earlier findings
-    nreg = 0
-    for name, doc in regress_cases(pid):
-        try:
-            for fp, detail in mod.replay(doc['case']):
-                total.finding(fp, doc['case'], detail)
-            nreg += 1
-        except Exception:
-            errors.append(f'regress {name}\n' + traceback.format_exc())
-
+    # replay tier: every saved minimal input of earlier findings (run in a worker: the parent never
+    # imports the library, so that workers can still choose import-time settings)
+    reg = regress_cases(pid)
+    nreg = len(reg)
     shards = mod.shards(tier, seed)
     nproc = int(os.environ.get('VERIF_PROCS', '16'))
     nproc = max(1, min(nproc, len(shards)))
     walls = []
-    if nproc == 1:
-        results = map(_worker, [(modname, s) for s in shards])
+    jobs = [(modname, s) for s in shards]
+    if reg:
+        jobs.insert(0, (modname, dict(__regress__=[(name, doc['case']) for name, doc in reg])))
+    nproc = max(1, min(int(os.environ.get('VERIF_PROCS', '16')), len(jobs)))
+    if nproc == 1 and not getattr(mod, 'MAXTASKS', None):
+        results = map(_worker, jobs)
     else:
+        nproc = max(nproc, 2) if getattr(mod, 'MAXTASKS', None) else nproc
         ctx = mp.get_context('fork')
         pool = ctx.Pool(nproc, maxtasksperchild=getattr(mod, 'MAXTASKS', None))
-        results = pool.imap_unordered(_worker, [(modname, s) for s in shards], chunksize=1)
+        results = pool.imap_unordered(_worker, jobs, chunksize=1)
     for r in results:
         if r['error']:
             errors.append(r['error'])
         walls.append(r['shard_wall'])
         total.merge(r)
-    if nproc > 1:
+    if not isinstance(results, map):
         pool.close()
         pool.join()
 
